@@ -1,6 +1,6 @@
 """C15 — secret-index array access reads and writes exactly one element."""
 import multiprocessing as mp
-from .. import common, progcheck, ref, solve
+from .. import common, progcheck, ref, solve, a2enc
 from ..framework import Exploration, Violation
 from ..gen import progs
 from ..propsbase import *
@@ -8,15 +8,23 @@ from ..propsbase import *
 ASSUMPTIONS = ["one-dimensional arrays of constants and secrets; histories of reads and writes at secret and plain indices compared with "
                "Python lists (harness/ref.py); shapes compared across index values; out-of-range secret indices: must raise with checks "
                "on, and with checks off the emitted system must be unsatisfiable (exhaustive witness search over p = 97)",
-               "two-dimensional access (tuple indices, ArrayRow) on the Python side only (harness/worker_array2d.py): histories over a "
-               "2-3 x 2-3 matrix with index OBJECTS created once and reused across operations, fresh secret and plain indices, rows read "
-               "at plain indices (the inner object itself: aliasing is list semantics and is modelled in the reference) and at secret "
-               "indices (read-only snapshots), copies, element reads a[i,j] / a[i][j] / r[j], writes a[i,j]=v, a[k][j]=v, r[j]=v, a[i]=row, "
-               "reads inside a taken / not-taken if_then_else branch, some indices outside the array (must raise IndexError at their first "
-               "use outside a branch that is not taken); rows read at a SECRET index and then stored at a constant position "
-               "(`a[0] = a[PrivVal(2)]`), matrices built from previously read rows (`g = Array([a[PrivVal(1)], a[0]])`), followed by "
-               "element writes through tuple indices with a constant or secret first index and reads back; the matrix is compared with "
-               "the list model after every operation; every value also checked against its wire expression on the recorded witness"]
+               "two-dimensional access (tuple indices, ArrayRow, rows as objects) is MODELLED (lean/PysnarkModel/Model/Array2D.lean) and "
+               "proved against nested Python lists (Spec/Array2D.lean; Props/C15.lean C15_read2 … C15_oblivious2_history) for "
+               "RECTANGULAR matrices whose elements are plain ints or LinComb's; every generated history is executed three times: on the "
+               "real pysnark (harness/worker_array2d.py), on the list-of-lists reference in that worker, and on the model "
+               "(Driver/ProtoArray2D.lean) — the model and the code must agree on the matrix after EVERY operation, on every value read, "
+               "on the error class and the position of the failing operation, on the wire expression of every stored value and on the "
+               "complete list of wires and constraints (S+W); histories over a 2-3 x 2-3 matrix with index OBJECTS created once and reused "
+               "across operations, fresh secret and plain indices, rows read at plain indices (the inner object itself: aliasing is list "
+               "semantics; the model keeps a heap of row objects) and at secret indices (read-only snapshots), copies, element reads "
+               "a[i,j] / a[i][j] / r[j], writes a[i,j]=v, a[k][j]=v, r[j]=v, a[i]=row, reads inside a taken / not-taken if_then_else branch, "
+               "some indices outside the array (must raise IndexError at their first use outside a branch that is not taken); rows read "
+               "at a SECRET index and then stored at a constant position (`a[0] = a[PrivVal(2)]`), matrices built from previously read rows "
+               "(`g = Array([a[PrivVal(1)], a[0]])`), followed by element writes through tuple indices with a constant or secret first "
+               "index and reads back; every value also checked against its wire expression on the recorded witness",
+               "not covered by the two-dimensional theorems: ragged matrices and row stores of a row of another length (the code zips: "
+               "see the finding `secret-index row store/read truncates to the shortest row`), rows holding LinCombBool / LinCombFxp "
+               "elements, arrays nested deeper than two levels, Array.__add__/__sub__/__rmul__/assert_eq/joined as user-level operations"]
 PARTIAL = []
 LEVELS = "VS"
 P97 = 97
@@ -51,6 +59,12 @@ def sat_job(job):
         return n, sorted(vals), True
     except solve.Limit:
         return n, sorted(vals), False
+
+
+# scenario class "a row of another length stored in the matrix": reproduces the recorded finding
+# C15-row-store-other-length (known_findings.json); part of every run (VERIF_C15_OTHER_LENGTH_ROWS=0 turns it off, development aid)
+import os
+OTHER_LENGTH_ROWS = os.environ.get("VERIF_C15_OTHER_LENGTH_ROWS", "1") == "1"
 
 
 def gen_2d(rnd):
@@ -119,6 +133,11 @@ def gen_2d(rnd):
 
     for _ in range(rnd.randrange(1, 3)):
         new_idx(True)
+    if OTHER_LENGTH_ROWS and rnd.random() < 0.15:
+        # a row built outside the matrix, of the matrix's width or not, stored at a secret or plain row index
+        v = newvar(); rowvars[v] = "array"
+        ops.append(["newrow", v, [fresh_val() for _ in range(rnd.choice([cols, cols, max(1, cols - 1), cols + 1]))]])
+        ops.append(["setrow", ["s", rnd.randrange(rows)] if rnd.random() < 0.7 else ["p", rnd.randrange(rows)], v])
     if rnd.random() < 0.2:
         stored_views(True)
     for _ in range(rnd.randrange(3, 9)):
@@ -163,9 +182,11 @@ def classify_2d(h, at):
     went wrong (or the whole history)"""
     ops = h["ops"] if at is None else h["ops"][:at + 1]
     used = {}
-    reuse = False; bypass = False; branch = False; stored = False
-    views = set()
+    reuse = False; bypass = False; branch = False; stored = False; other = False
+    views = set(); odd = set()
     for op in ops:
+        if op[0] == "newrow" and len(op[2]) != h["cols"]: odd.add(op[1])
+        if op[0] == "setrow" and op[2] in odd: other = True
         if op[0] == "row" and (op[2][0] == "s" or (op[2][0] == "n" and any(o[0] == "idx" and o[1] == op[2][1] and o[2] for o in h["ops"]))):
             views.add(op[1])
         if op[0] == "gather" or (op[0] == "setrow" and op[2] in views and op[1][0] != "s"): stored = True
@@ -176,14 +197,62 @@ def classify_2d(h, at):
             if op[0] == "bget" and not op[2]: branch = True
         if op[0] in ("setchain", "set1"): bypass = True
     return {"index_object_reused": reuse, "write_through_row": bypass, "index_first_used_in_branch_not_taken": branch,
-            "secret_read_row_stored_in_matrix": stored}
+            "secret_read_row_stored_in_matrix": stored, "row_of_other_length_stored": other}
+
+
+def model_diff_2d(real, mrep, names):
+    """the model's run of a history against the real run: None if they agree, "unmodelled", or the first difference"""
+    m = a2enc.decode(mrep)
+    if "bad" in m:
+        raise common.Infra("model driver: " + m["bad"])
+    if m["status"] == "UNMODELLED":
+        return "unmodelled"
+    if m["status"] != real["status"] or m["at"] != real["at"]:
+        return f"model ends with {m['status']} at operation {m['at']}, the code with {real['status']} at operation {real['at']}"
+    for k, (a, b) in enumerate(zip(m["trace"], real["trace"])):
+        if a != b:
+            return f"matrix after operation #{k}: model {a}, code {b}"
+    if len(m["trace"]) != len(real["trace"]):
+        return f"{len(m['trace'])} completed operations in the model, {len(real['trace'])} in the code"
+    mv = {names[k]: v for k, v in m["vars"].items()}
+    if mv != real["vars"]:
+        return f"values read: model {mv}, code {real['vars']}"
+    if m["state"] != real["state"]:
+        fa = m["state"].split("|"); fb = real["state"].split("|")
+        for x, y in zip(fa, fb):
+            if x != y:
+                ca = x.split(" & "); cb = y.split(" & ")
+                i = next((i for i, (u, v) in enumerate(zip(ca, cb)) if u != v), min(len(ca), len(cb)))
+                return (f"wires / constraints ({x.split('=')[0]}): model {len(ca)} entries, code {len(cb)}; first difference at #{i}: "
+                        f"{(ca[i] if i < len(ca) else '-')[:200]} vs {(cb[i] if i < len(cb) else '-')[:200]}")
+        return "state strings differ in length"
+    mat, _, vs = m["lcs"].partition("#")
+    ml = {"matrix": mat}
+    for kv in vs.split(";"):
+        if kv:
+            k, _, v = kv.partition("="); ml[names[k]] = v
+    if ml != real["lcs"]:
+        k = next(k for k in sorted(set(ml) | set(real["lcs"])) if ml.get(k) != real["lcs"].get(k))
+        return f"wire expression of {k}: model {str(ml.get(k))[:300]}, code {str(real['lcs'].get(k))[:300]}"
+    return None
 
 
 def explore_2d(ctx, ex):
     import json
     hs = [gen_2d(ctx.rnd) for _ in range(ctx.n(700, 14000))]
     outs = common.run_workers([f"A2|a{i}|{json.dumps(h)}" for i, h in enumerate(hs)], script="worker_array2d.py")
-    for h, o in zip(hs, outs):
+    # the same histories on the model (lean/PysnarkModel/Model/Array2D.lean through Driver/ProtoArray2D.lean)
+    ok, out, _ = common.lake_build(["PysnarkModel.Driver.ProtoArray2D"])
+    if not ok:
+        raise common.Infra("model driver for two-dimensional histories does not build: " + out[-1500:])
+    enc = []
+    for i, h in enumerate(hs):
+        try:
+            enc.append(a2enc.encode(h, f"a{i}"))
+        except a2enc.Unmodelled:
+            enc.append(None)
+    mreps = iter(common.lean_driver([e[0] for e in enc if e]))
+    for h, o, e in zip(hs, outs, enc):
         ex.evaluations += 1
         d = json.loads(o.split("|", 1)[1])
         if "harness-error" in d:
@@ -193,8 +262,15 @@ def explore_2d(ctx, ex):
         cls = classify_2d(h, d.get("at"))
         for k, v in cls.items():
             if v: ex.count(f"2d:{k}")
+        # correspondence: values after every operation, values read, error class and position, wires and constraints
+        diff = "unmodelled" if e is None else model_diff_2d(d["real"], next(mreps), e[1])
+        if diff == "unmodelled":
+            ex.unmodelled += 1; ex.count("2d:unmodelled")
+        elif diff:
+            ex.disagreements.append({"case": "A2|r|" + json.dumps(h), "model": e[0], "diff": [diff]})
+        else:
+            ex.traces_validated += 1; ex.count("2d:model-agrees")
         if d["status"] == "ok" and d["refstatus"] == "ok":
-            ex.traces_validated += 1
             bad = None
             if d["m"] != d["ref"]:
                 bad = (f"after operation #{d['at']} {h['ops'][d['at']]}: " if d.get("at") is not None else "") + \
@@ -221,9 +297,10 @@ def explore_2d(ctx, ex):
 def explore(ctx, extended=False, focus=None):
     ex = Exploration()
     ex.rule = ("(a) arrays of 1-5 constants/secrets, 1-4 reads/writes at secret or plain indices inside and outside the bounds, then every "
-               "element read back: values vs Python lists, V+S correspondence with the model; (b) the same history with other index "
-               "values: identical shapes; (c) tiny instances over p=97: in-range read determined, out-of-range index unsatisfiable; "
-               "distinct = (history, length, index classes, bitlength)")
+               "element read back: values vs Python lists, V+S correspondence with the model; the same history with other index "
+               "values: identical shapes; (b) two-dimensional histories (gen_2d): code vs list-of-lists reference vs model "
+               "(V after every operation, error class and position, S+W of the whole run); (c) tiny instances over p=97: in-range "
+               "read determined, out-of-range index unsatisfiable; distinct = (history, length, index classes, bitlength)")
     n = ctx.n(900, 18000) * (3 if extended else 1)
     cases = corpus_cases("C15") + [progs.array_case(ctx.rnd, f"c15_{i}") for i in range(n)]
     recs = execute_all(cases)
@@ -313,7 +390,15 @@ def replay(ctx, payload):
     rp = payload["replay"]
     if "history" in rp:
         import json
-        print(common.run_workers([f"A2|r|{json.dumps(rp['history'])}"], script="worker_array2d.py")[0][:3000])
+        out = common.run_workers([f"A2|r|{json.dumps(rp['history'])}"], script="worker_array2d.py")[0]
+        print("impl :", out[:3000])
+        try:
+            line, names = a2enc.encode(rp["history"], "r")
+            ml = common.lean_driver([line])[0]
+            print("model:", ml[:3000])
+            print("diff :", model_diff_2d(json.loads(out.split("|", 1)[1])["real"], ml, names))
+        except a2enc.Unmodelled as e:
+            print("model: history not expressible in the model's event language:", e)
         return 0
     replay_case(rp.get("case") or rp.get("case_a"))
     return 0
